@@ -1,0 +1,253 @@
+//! Verification hooks for the handler: the real `Handler` on a virtual wire, and the crate's own
+//! cryptographic and packet functions for a scripted peer. Adds code only.
+use super::*;
+use crate::socket::recv::{RecvHandler, RecvPacket};
+use crate::socket::send::OutboundPacket;
+use crate::socket::FilterConfig;
+
+/// The real `Handler` event loop on an in-memory socket. Inbound datagrams go through the real
+/// `RecvHandler::handle_inbound` (filter exemption lookup, packet filter, `Packet::decode`);
+/// outbound packets are encoded with the real `Packet::encode`.
+pub struct VirtualHandler {
+    /// Application -> handler.
+    pub to_handler: mpsc::UnboundedSender<HandlerIn>,
+    /// Handler -> application.
+    pub from_handler: mpsc::Receiver<HandlerOut>,
+    /// The filter exemption map shared by the handler and the receive path.
+    pub exemptions: Arc<RwLock<HashMap<SocketAddr, usize>>>,
+    wire_out: mpsc::Receiver<OutboundPacket>,
+    recv_handler: RecvHandler,
+    recv_out: mpsc::Receiver<RecvPacket>,
+    wire_in: mpsc::Sender<RecvPacket>,
+    exit: Option<oneshot::Sender<()>>,
+    local_id: NodeId,
+}
+
+impl VirtualHandler {
+    /// Builds the handler and spawns its event loop on the current tokio runtime.
+    pub async fn spawn(
+        enr: Arc<RwLock<Enr>>,
+        key: Arc<RwLock<CombinedKey>>,
+        config: Config,
+        listen_sockets: Vec<SocketAddr>,
+    ) -> std::io::Result<Self> {
+        let (exit_sender, exit) = oneshot::channel();
+        let (to_handler, service_recv) = mpsc::unbounded_channel();
+        let (service_send, from_handler) = mpsc::channel(1024);
+        let exemptions = Arc::new(RwLock::new(HashMap::new()));
+        let node_id = enr.read().node_id();
+        let filter_config = FilterConfig {
+            enabled: config.enable_packet_filter,
+            rate_limiter: config.filter_rate_limiter.clone(),
+            max_nodes_per_ip: config.filter_max_nodes_per_ip,
+            max_bans_per_ip: config.filter_max_bans_per_ip,
+        };
+        let (recv_handler, recv_out) = RecvHandler::verif_new(
+            filter_config,
+            config.ban_duration,
+            node_id,
+            config.protocol_identity,
+            exemptions.clone(),
+        )
+        .await?;
+        let (wire_out_tx, wire_out) = mpsc::channel(4096);
+        let (wire_in, socket_recv) = mpsc::channel(256);
+        let socket = Socket::verif_virtual(wire_out_tx, socket_recv);
+        METRICS.active_sessions.store(0, Ordering::Relaxed);
+        let mut handler = Handler {
+            request_retries: config.request_retries,
+            node_id,
+            protocol_identity: config.protocol_identity,
+            enr,
+            key,
+            active_requests: ActiveRequests::new(config.request_timeout),
+            pending_requests: HashMap::new(),
+            filter_expected_responses: exemptions.clone(),
+            sessions: LruTimeCache::new(
+                config.session_timeout,
+                Some(config.session_cache_capacity),
+            ),
+            active_challenges: HashMapDelay::new(config.request_timeout),
+            service_recv,
+            service_send,
+            listen_sockets: listen_sockets.into_iter().collect(),
+            socket,
+            exit,
+        };
+        tokio::spawn(async move {
+            handler.start().await;
+        });
+        Ok(VirtualHandler {
+            to_handler,
+            from_handler,
+            exemptions,
+            wire_out,
+            recv_handler,
+            recv_out,
+            wire_in,
+            exit: Some(exit_sender),
+            local_id: node_id,
+        })
+    }
+
+    /// Delivers one datagram from `src`: the real receive path, then the handler's socket queue.
+    /// Returns how many packets were forwarded to the handler (0 if filtered).
+    pub async fn inject(&mut self, src: SocketAddr, datagram: &[u8]) -> usize {
+        self.recv_handler.verif_handle_inbound(src, datagram).await;
+        let mut n = 0;
+        while let Ok(p) = self.recv_out.try_recv() {
+            n += 1;
+            let _ = self.wire_in.send(p).await;
+        }
+        n
+    }
+
+    /// The next datagram the handler has put on the wire, if any: destination and bytes.
+    pub fn next_datagram(&mut self) -> Option<(NodeAddress, Vec<u8>)> {
+        match self.wire_out.try_recv() {
+            Ok(p) => {
+                let bytes = p.packet.encode(&p.node_address.node_id);
+                Some((p.node_address, bytes))
+            }
+            Err(_) => None,
+        }
+    }
+
+    /// The local node id.
+    pub fn local_id(&self) -> NodeId {
+        self.local_id
+    }
+
+    /// Stops the handler task.
+    pub fn shutdown(&mut self) {
+        if let Some(e) = self.exit.take() {
+            let _ = e.send(());
+        }
+    }
+}
+
+/// The number of sessions the handler holds, as published in its metrics.
+pub fn active_sessions() -> usize {
+    METRICS.active_sessions.load(Ordering::Relaxed)
+}
+
+/// A packet in plain form, for the scripted peer.
+#[derive(Debug, Clone, PartialEq, Eq)]
+pub struct WirePacket {
+    pub iv: u128,
+    pub nonce: MessageNonce,
+    pub kind: PacketKind,
+    pub message: Vec<u8>,
+}
+
+fn to_packet(p: &WirePacket, protocol_identity: ProtocolIdentity) -> Packet {
+    Packet {
+        iv: p.iv,
+        header: crate::packet::PacketHeader {
+            message_nonce: p.nonce,
+            protocol_identity,
+            kind: p.kind.clone(),
+        },
+        message: p.message.clone(),
+    }
+}
+
+/// The authenticated data (IV and unmasked header) of a packet.
+pub fn wire_aad(p: &WirePacket, protocol_identity: ProtocolIdentity) -> Vec<u8> {
+    to_packet(p, protocol_identity).authenticated_data()
+}
+
+/// `Packet::encode`.
+pub fn wire_encode(p: &WirePacket, protocol_identity: ProtocolIdentity, dst: &NodeId) -> Vec<u8> {
+    to_packet(p, protocol_identity).encode(dst)
+}
+
+/// `Packet::decode`: the packet and its authenticated data, or the name of the error.
+pub fn wire_decode(
+    local: &NodeId,
+    protocol_identity: ProtocolIdentity,
+    data: &[u8],
+) -> Result<(WirePacket, Vec<u8>), String> {
+    match Packet::decode(local, protocol_identity, data) {
+        Ok((p, aad)) => Ok((
+            WirePacket {
+                iv: p.iv,
+                nonce: p.header.message_nonce,
+                kind: p.header.kind,
+                message: p.message,
+            },
+            aad,
+        )),
+        Err(e) => Err(format!("{:?}", e)),
+    }
+}
+
+fn challenge(data: &[u8]) -> Option<ChallengeData> {
+    ChallengeData::try_from(data).ok()
+}
+
+/// `crypto::generate_session_keys`: (initiator key, recipient key, ephemeral public key).
+pub fn toolkit_generate_session_keys(
+    local_id: &NodeId,
+    contact: &NodeContact,
+    challenge_data: &[u8],
+) -> Option<([u8; 16], [u8; 16], Vec<u8>)> {
+    crypto::generate_session_keys(local_id, contact, &challenge(challenge_data)?).ok()
+}
+
+/// `crypto::derive_keys_from_pubkey`: (initiator key, recipient key).
+pub fn toolkit_derive_keys_from_pubkey(
+    local_key: &CombinedKey,
+    local_id: &NodeId,
+    remote_id: &NodeId,
+    challenge_data: &[u8],
+    ephem_pubkey: &[u8],
+) -> Option<([u8; 16], [u8; 16])> {
+    crypto::derive_keys_from_pubkey(
+        local_key,
+        local_id,
+        remote_id,
+        &challenge(challenge_data)?,
+        ephem_pubkey,
+    )
+    .ok()
+}
+
+/// `crypto::sign_nonce`.
+pub fn toolkit_sign_nonce(
+    key: &CombinedKey,
+    challenge_data: &[u8],
+    ephem_pubkey: &[u8],
+    dst_id: &NodeId,
+) -> Option<Vec<u8>> {
+    crypto::sign_nonce(key, &challenge(challenge_data)?, ephem_pubkey, dst_id).ok()
+}
+
+/// `crypto::verify_authentication_nonce`.
+pub fn toolkit_verify_nonce(
+    remote_pubkey: &enr::CombinedPublicKey,
+    ephem_pubkey: &[u8],
+    challenge_data: &[u8],
+    dst_id: &NodeId,
+    sig: &[u8],
+) -> bool {
+    match challenge(challenge_data) {
+        Some(c) => crypto::verify_authentication_nonce(remote_pubkey, ephem_pubkey, &c, dst_id, sig),
+        None => false,
+    }
+}
+
+/// `crypto::encrypt_message` (AES-128-GCM).
+pub fn toolkit_encrypt(key: &[u8; 16], nonce: MessageNonce, msg: &[u8], aad: &[u8]) -> Option<Vec<u8>> {
+    crypto::encrypt_message(key, nonce, msg, aad).ok()
+}
+
+/// `crypto::decrypt_message` (AES-128-GCM).
+pub fn toolkit_decrypt(key: &[u8; 16], nonce: MessageNonce, msg: &[u8], aad: &[u8]) -> Option<Vec<u8>> {
+    crypto::decrypt_message(key, nonce, msg, aad).ok()
+}
+
+/// The message nonce a `WhoAreYouRef` refers to.
+pub fn whoareyou_ref_nonce(r: &WhoAreYouRef) -> MessageNonce {
+    r.1
+}
